@@ -722,7 +722,16 @@ class ExpressionEvaluator:
         """Evaluate an AST node and return its value."""
         method = f'_eval_{type(node).__name__}'
         if hasattr(self, method):
-            return getattr(self, method)(node)
+            try:
+                return getattr(self, method)(node)
+            except ExpressionError:
+                raise
+            except Exception as e:
+                # Operands of the wrong type, bad regex, empty sequence, exhausted
+                # generator, ...: the expression cannot be evaluated for this item.
+                raise ExpressionError(
+                    f"Cannot evaluate {type(node).__name__}: {type(e).__name__}: {e}"
+                ) from e
         raise ExpressionError(f"Cannot evaluate node type: {type(node).__name__}")
 
     def _eval_Expression(self, node: ast.Expression) -> Any:
@@ -896,7 +905,16 @@ class TransactionEvaluator:
         """Evaluate an AST node and return its value."""
         method = f'_eval_{type(node).__name__}'
         if hasattr(self, method):
-            return getattr(self, method)(node)
+            try:
+                return getattr(self, method)(node)
+            except ExpressionError:
+                raise
+            except Exception as e:
+                # Operands of the wrong type, bad regex, empty sequence, exhausted
+                # generator, ...: the expression cannot be evaluated for this item.
+                raise ExpressionError(
+                    f"Cannot evaluate {type(node).__name__}: {type(e).__name__}: {e}"
+                ) from e
         raise ExpressionError(f"Cannot evaluate node type: {type(node).__name__}")
 
     def _eval_Expression(self, node: ast.Expression) -> Any:
